@@ -34,3 +34,13 @@ claim("C11",
       "Decides that the file store's write protocol has the crash-safe shape: nothing truncates the live index (temp file, successful flush+close, then rename), the raw file is complete before the index names it and is removed on every later error return, the index is updated before a raw file is unlinked and unlinked before a mailbox directory is removed, and every fs-mutating call in the package is in the classified inventory. Crash points themselves are not enumerated; fsync durability and partial temp writes are not decided.",
       "Trusts go/ssa and POSIX rename atomicity; assumes an absent index reads as an empty mailbox.",
       "DESIGN.md section 4, C11")
+claim("C15",
+      "field-access confinement to enqueued closures (actor rule), channel-operation inventory per channel identity, blocking-op detection in every msghub.Listener implementer, close/send race and receive-as-closed-test rules",
+      "Decides that hub state is touched only inside operation closures queued on the hub's single-consumer channel, and, for every implementer of msghub.Listener discovered in the module, that Receive/Delete cannot block, that no listener channel with a close site is sent to by another function, and that no data channel is used as its own 'closed' flag. The three listener rules currently report the WebSocket v1/v2 listeners as recorded known findings (demonstrated against the real code); any other violation still fails. Exactly-once/in-order delivery to peers is not decided.",
+      "Trusts go/ssa and channel identity by struct field; Listener methods are assumed to be called only from hub operations.",
+      "DESIGN.md section 4, C15")
+claim("C19",
+      "dominance (Add before go, deferred Done on all exits), CFG must-pass-through (listener close, Drain/Join in main, close-on-exit), select-arm analysis, channel close/send inventory",
+      "Decides for both servers that every session spawn is preceded by wg.Add in the spawning goroutine with a deferred Done in the spawned function, that Drain waits and main reaches both Drains and Join on every path, that the listener is closed on every path after ctx.Done() and the accept loop returns quietly on shutdown, that no hub channel producers send on is closed at cancellation, and that the retention scanner observes ctx at each blocking point and closes its shutdown channel on every exit. Timing and TCP behaviour are not decided.",
+      "Trusts go/ssa, sync.WaitGroup semantics.",
+      "DESIGN.md section 4, C19")
